@@ -429,12 +429,10 @@ struct dirent64 *readdir64(DIR *d) {
 int closedir(DIR *d) {
     static int (*real)(DIR *);
     if (!real) real = dlsym(RTLD_NEXT, "closedir");
-    if (n_readdir) {
-        pthread_mutex_lock(&mu);
-        for (int i = 0; i < MAXDIRS; i++)
-            if (dir_ptr[i] == d) { dir_ptr[i] = NULL; free(dir_path[i]); dir_path[i] = NULL; }
-        pthread_mutex_unlock(&mu);
-    }
+    pthread_mutex_lock(&mu);
+    for (int i = 0; i < MAXDIRS; i++)
+        if (dir_ptr[i] == d) { dir_ptr[i] = NULL; free(dir_path[i]); dir_path[i] = NULL; }
+    pthread_mutex_unlock(&mu);
     return real(d);
 }
 
@@ -585,9 +583,12 @@ void faultshim_set(const char *new_root, const char *plan) {
     init();
     pthread_mutex_lock(&mu);
     n_open = n_opendir = n_read = n_eof = n_stat = n_fstat = n_pipe_eintr = 0;
+    n_mmap = n_readdir = n_fsize = n_out_eintr = 0;
+    out_frag_on = 0;
+    for (int i = 0; i < MAXDIRS; i++) { dir_ptr[i] = NULL; free(dir_path[i]); dir_path[i] = NULL; dir_reads[i] = 0; }
     frag_on = pipe_frag_on = 0;
     stdout_budget = -1;
-    c_stat_err = c_open_err = c_opendir_err = 0;
+    c_stat_err = c_open_err = c_opendir_err = c_readdir_err = 0;
     root[0] = 0;
     if (new_root) strncpy(root, new_root, sizeof root - 1);
     if (!getcwd(cwd, sizeof cwd)) cwd[0] = 0;
@@ -596,3 +597,4 @@ void faultshim_set(const char *new_root, const char *plan) {
 }
 
 long faultshim_stat_faults(void) { return c_stat_err; }
+long faultshim_dir_faults(void) { return c_opendir_err + c_readdir_err; }
